@@ -568,13 +568,13 @@ func c09TxnByTxn(c *Ctx, ge *GuardEngine) {
 	} {
 		var vg *Guard
 		for i, g := range gs {
-			if len(g.Chain) == 1 && g.L == "call "+r.validate+"("+strings.Join(r.args, ", ")+")" && g.Op == "!=" && g.R == "nil" && !g.Weak {
+			if len(g.Chain) <= 2 && g.L == "call "+r.validate+"("+strings.Join(r.args, ", ")+")" && g.Op == "!=" && g.R == "nil" && !g.Weak {
 				vg = &gs[i]
 			}
 		}
 		var ap *CallFact
 		for i, cf := range cs {
-			if cf.Callee != nil && FuncName(cf.Callee) == r.apply && len(cf.Chain) == 1 && strings.Join(cf.Args, ", ") == strings.Join(r.args, ", ") {
+			if cf.Callee != nil && FuncName(cf.Callee) == r.apply && len(cf.Chain) <= 2 && strings.Join(cf.Args, ", ") == strings.Join(r.args, ", ") {
 				ap = &cs[i]
 			}
 		}
@@ -582,14 +582,14 @@ func c09TxnByTxn(c *Ctx, ge *GuardEngine) {
 		if ok {
 			// the validation guard dominates the apply call, both in the same loop
 			var ab *ssa.BasicBlock
-			for _, b := range vb.Blocks {
+			for _, b := range vg.Fn.Blocks { // ValidateBlock itself or the helper the loop was moved into
 				for _, in := range b.Instrs {
 					if in.Pos() == ap.Pos {
 						ab = b
 					}
 				}
 			}
-			ok = ab != nil && vg.Block.Dominates(ab) && len(ap.Ctx) == 0
+			ok = ab != nil && vg.Block.Dominates(ab) && len(ap.Ctx) == 0 && ap.Caller == vg.Fn
 			if ok && vg.Block == ab {
 				// same block: the validation call must come first
 				vc := propagatingCall(vg.CondV)
@@ -605,6 +605,35 @@ func c09TxnByTxn(c *Ctx, ge *GuardEngine) {
 			}
 		}
 		c.Check(ok, "txn-by-txn", r.id, c.P.Pos(vb.Pos()), ifElse(ok, r.validate+" on the evolving MidState dominates "+r.apply+" of the same transaction", "ValidateBlock does not validate each "+r.id+" transaction against the MidState and then apply it with "+r.apply+" (same transaction, same supplement)"))
+	}
+	// one block accumulator: the v1 and the v2 transactions of a block are validated against the SAME evolving
+	// MidState (a v2 transaction must see what the v1 transactions of the block spent): exactly one NewMidState call
+	// site in ValidateBlock and the helpers it calls directly
+	{
+		n, where := 0, ""
+		fns := []*ssa.Function{vb}
+		for _, b := range vb.Blocks {
+			for _, in := range b.Instrs {
+				if call, ok := in.(*ssa.Call); ok {
+					if g := call.Call.StaticCallee(); g != nil && c.P.InModule(g) && g.Pkg == vb.Pkg && len(g.Blocks) > 0 && !strings.HasPrefix(g.Name(), "Validate") && g.Name() != "NewMidState" {
+						fns = append(fns, g)
+					}
+				}
+			}
+		}
+		for _, f := range fns {
+			for _, b := range f.Blocks {
+				for _, in := range b.Instrs {
+					if call, ok := in.(*ssa.Call); ok {
+						if g := call.Call.StaticCallee(); g != nil && FuncName(g) == "consensus.NewMidState" {
+							n++
+							where = c.P.Pos(call.Pos())
+						}
+					}
+				}
+			}
+		}
+		c.Check(n == 1, "txn-by-txn", "one-midstate", where, ifElse(n == 1, "one MidState per validated block", fmt.Sprintf("%d MidStates are created while validating one block: transactions validated against different accumulators do not see each other's spends", n)))
 	}
 	// the block-application path uses the same apply functions
 	mab := c.P.Func(MAB)
